@@ -3,6 +3,8 @@ CONSTANTS
   LUnits = {"A"}
   Routines = {"noop"}
   Raising = {"noop"}
+  MaxPool = 0
+  BackupAt = "enter"
   MaxCtx = 0
   MaxSteps = 0
 SPECIFICATION TraceSpec
